@@ -17,9 +17,9 @@ let kv tok key =
   else failwith ("expected " ^ key ^ "= got " ^ tok)
 
 let flags_of_variant v =
-  if v = "repaired" then repaired else if v = "defective" then defective
-  else if String.length v = 5 && v.[0] = 'v' then
-    { f_reply = v.[1] = '1'; f_coaauth = v.[2] = '1'; f_dmwin = v.[3] = '1'; f_white = v.[4] = '1' }
+  if v = "repaired" then repaired else if v = "head" then head else if v = "defective" then defective
+  else if String.length v = 6 && v.[0] = 'v' then
+    { f_reply = v.[1] = '1'; f_coaauth = v.[2] = '1'; f_dmwin = v.[3] = '1'; f_white = v.[4] = '1'; f_tsreq = v.[5] = '1' }
   else failwith "variant"
 
 let rec take k l = if k = 0 then ([], l) else match l with x :: r -> let (a, b) = take (k-1) r in (x :: a, b) | [] -> failwith "short"
@@ -157,6 +157,10 @@ let run_coa fl toks impl =
   | _ -> "badcase"
 
 (* ------------------------------------------------------------ Authenticate cases *)
+(* The decision (allowed with attributes / denied / error) is [authenticate_radius] of the Coq model.  The
+   request with its random authenticator, identifier and timestamp is taken from the implementation's line;
+   the model answers with the request it expects on the wire ([refill_ma]: Message-Authenticator recomputed)
+   and with its own verdict on that request. *)
 let run_auth fl toks impl =
   match toks with
   | sec :: _ :: _ ->
@@ -165,27 +169,13 @@ let run_auth fl toks impl =
      | rq :: dgs :: _ when String.length rq > 4 && String.sub rq 0 4 = "req=" ->
        let req = bytes_of_hex (kv rq "req") in
        let dl = let d = kv dgs "dgs" in if d = "-" then [] else List.map bytes_of_hex (String.split_on_char ',' d) in
-       let id = List.nth req 1 in
-       let (st, _) = cstep md5f fl secret pending0 (CSend (id, req)) in
-       let st = ref st and got = ref None in
-       List.iter (fun d ->
-           let (s2, o) = cstep md5f fl secret !st (CRecv d) in
-           st := s2;
-           match o with Some _ when !got = None -> got := Some d | _ -> ()) dl;
-       let g = match !got with
-         | None -> "error"
-         | Some d ->
-           (match parse d with
-            | None -> "MODELBUG"
-            | Some p ->
-              let c = int_of_n p.p_code in
-              if c = 3 then "denied"
-              else if c <> 2 then "error"
-              else "allowed:" ^ show_delta (extract_attributes [] p.p_attrs)) in
-       (* Provider.Authenticate always adds a Message-Authenticator; the model expects it to verify (RFC 3579) *)
-       let _ = ma_ok_asis md5f secret req in
-       let reqma = "1" in
-       rq ^ " " ^ dgs ^ " reqma=" ^ reqma ^ " got=" ^ g
+       let g = match authenticate_radius md5f fl secret req dl with
+         | AAllowed attrs -> "allowed:" ^ show_delta attrs
+         | ADenied -> "denied"
+         | AError -> "error" in
+       let expected = refill_ma md5f secret req in
+       let reqma = match find_attr80 expected with None -> "-" | Some _ -> if ma_ok_asis md5f secret expected then "1" else "0" in
+       "req=" ^ hex_of_bytes expected ^ " " ^ dgs ^ " reqma=" ^ reqma ^ " got=" ^ g
      | _ -> "NOIMPL")
   | _ -> "badcase"
 
